@@ -33,7 +33,11 @@ type c05sCase struct {
 	Byz     int
 	Victims []int // honest parties that are shown instance B
 	// Mode: 0 everything of B for the victims; 1 only B's broadcast-class messages (commitment, revealed key) for the
-	// victims, the point-to-point shares of A for everybody; 2 only B's revealed key for the victims
+	// victims, the point-to-point shares of A for everybody; 2 only B's revealed key for the victims;
+	// 3 "accomplice": the participant withholds its commitment; a configured member that does NOT take part in this key
+	// generation (node n+1) transmits that commitment under its own identifier instead, to every party. Everything else of
+	// the participant is delivered. No honest party may disclose its key contribution: it never holds the participant's
+	// commitment.
 	Mode int
 	// SelfAck: the participant also vouches itself for whatever it showed to a party (an acknowledgement naming itself as
 	// the sender, with the digest of the payload that party was shown)
@@ -45,6 +49,8 @@ type c05sInfo struct {
 	Results   map[int]string
 	Successes int
 	Diverted  int // frames of instance B delivered to victims
+	Resourced int // mode 3: commitment frames of the participant transmitted by the non-participant instead
+	Disclosed []int
 }
 
 type muxHandler struct{ a, b sim.Handler }
@@ -56,6 +62,12 @@ func (m muxHandler) HandleMessage(in *tss.IncMessage) {
 }
 
 const c05sTimeout = 30 * time.Second
+
+// message classes of the built-in BLS and PS key generations (the classifier's "round"): 1 share (p2p), 2 commitment, 3 revealed key
+const (
+	c05sCommit = 2
+	c05sReveal = 3
+)
 
 func runC05S(c c05sCase) *vh.Outcome {
 	o := &vh.Outcome{}
@@ -76,7 +88,12 @@ func runC05S(c c05sCase) *vh.Outcome {
 		pick := func(uint16) func([]byte, int) []uint16 {
 			return func([]byte, int) []uint16 { return append([]uint16(nil), all...) }
 		}
-		cl := stack.New(net, stack.Config{Membership: identityMembership(c.N), Silent: c.Silent, Threshold: c.T - 1,
+		members := c.N
+		accomplice := uint16(c.N + 1)
+		if c.Mode == 3 {
+			members = c.N + 1
+		}
+		cl := stack.New(net, stack.Config{Membership: identityMembership(members), Silent: c.Silent, Threshold: c.T - 1,
 			KGF: func(node uint16) tss.KeyGenFactory {
 				return func(id uint16) tss.KeyGenerator { return kind.NewKeyGen(id) }
 			},
@@ -85,7 +102,7 @@ func runC05S(c c05sCase) *vh.Outcome {
 		// instance B of the misbehaving participant: a second, equally honest node under the same identifier
 		membership := func() map[tss.UniversalID]tss.PartyID {
 			m := map[tss.UniversalID]tss.PartyID{}
-			for _, id := range all {
+			for id := 1; id <= members; id++ {
 				m[tss.UniversalID(id)] = tss.PartyID(id)
 			}
 			return m
@@ -123,15 +140,32 @@ func runC05S(c c05sCase) *vh.Outcome {
 				return true
 			case 1:
 				return bcast
+			case 3:
+				return false
 			default:
-				return bcast && round >= 2 // the revealed key is the last broadcast of the DKG
+				return bcast && round >= c05sReveal // the revealed key is the last broadcast of the DKG
 			}
 		}
+		disclosed := map[uint16]bool{}
 		net.Interpose = func(f *sim.Frame) []*sim.Frame {
+			if c.Mode == 3 && f.From != byz && f.From != accomplice && f.MsgType == uint8(tss.MsgTypeMPC) && len(f.Data) >= 2 && f.Data[0] == 0xFF {
+				if round, bcast, err := classifier.ClassifyMsg(f.Data[1:]); err == nil && bcast && round >= c05sReveal && !disclosed[f.From] {
+					disclosed[f.From] = true
+					info.Disclosed = append(info.Disclosed, int(f.From))
+				}
+			}
 			if f.From != byz {
 				return []*sim.Frame{f}
 			}
 			fromB := f.Note == "B"
+			if c.Mode == 3 && !fromB && f.MsgType == uint8(tss.MsgTypeMPC) && len(f.Data) >= 2 && f.Data[0] == 0xFF {
+				if round, bcast, err := classifier.ClassifyMsg(f.Data[1:]); err == nil && bcast && round == c05sCommit {
+					g := *f
+					g.From = accomplice
+					info.Resourced++
+					return []*sim.Frame{&g}
+				}
+			}
 			if !replaced(f) {
 				if fromB {
 					return nil
@@ -167,6 +201,10 @@ func runC05S(c c05sCase) *vh.Outcome {
 			fail = f
 			return
 		}
+		if c.Mode == 3 && len(info.Disclosed) > 0 {
+			fail = vh.Failf("C05/stack/disclosed-without-commitment", "honest parties %v disclosed their public-key contribution although participant %d never sent them a commitment: its commitment arrived only from node %d, a configured member that does not take part in this key generation (n=%d t=%d backend %s silent=%v)", info.Disclosed, c.Byz, accomplice, c.N, c.T, c.Backend, c.Silent)
+			return
+		}
 		for i, id := range all {
 			call := d.Calls[i]
 			if id == byz {
@@ -197,7 +235,7 @@ func runC05S(c c05sCase) *vh.Outcome {
 	}
 	o.Key = fmt.Sprintf("%+v", c)
 	split := len(c.Victims) > 0 && len(c.Victims) < c.N-1
-	o.NonTrivial = split && info.Diverted > 0
+	o.NonTrivial = split && info.Diverted > 0 || c.Mode == 3 && info.Resourced > 0
 	o.Classes = append(o.Classes, "backend="+c.Backend, fmt.Sprintf("silent=%v", c.Silent), fmt.Sprintf("mode=%d", c.Mode))
 	if c.T == c.N {
 		o.Classes = append(o.Classes, "t=n")
@@ -240,7 +278,10 @@ func genC05S(t *rapid.T) c05sCase {
 			c.Victims = append(c.Victims, h)
 		}
 	}
-	c.Mode = rapid.IntRange(0, 2).Draw(t, "mode")
+	c.Mode = rapid.IntRange(0, 3).Draw(t, "mode")
+	if c.Mode == 3 {
+		c.Victims = nil
+	}
 	c.SelfAck = rapid.Bool().Draw(t, "selfAck")
 	c.Sched = genSchedule(t, 200)
 	return c
